@@ -180,18 +180,19 @@ func (j Job) key() string {
 }
 
 type OblResult struct {
-	Job        string `json:"job"`
-	Kind       string `json:"kind"`
-	Label      string `json:"label"`
-	Pos        string `json:"pos,omitempty"`
-	Status     string `json:"status"`
-	Ms         int64  `json:"ms"`
-	Solver     string `json:"solver,omitempty"`
-	Size       int    `json:"term_nodes,omitempty"`
-	Path       []int  `json:"fork_path,omitempty"`
-	Cubes      int    `json:"cubes,omitempty"`
-	Lattice    int    `json:"lattice,omitempty"`
-	N          int    `json:"combined_assertions,omitempty"`
+	Job        string              `json:"job"`
+	Kind       string              `json:"kind"`
+	Label      string              `json:"label"`
+	Pos        string              `json:"pos,omitempty"`
+	Status     string              `json:"status"`
+	Ms         int64               `json:"ms"`
+	Solver     string              `json:"solver,omitempty"`
+	Size       int                 `json:"term_nodes,omitempty"`
+	Path       []int               `json:"fork_path,omitempty"`
+	Cubes      int                 `json:"cubes,omitempty"`
+	Lattice    int                 `json:"lattice,omitempty"`
+	N          int                 `json:"combined_assertions,omitempty"`
+	AltModels  []map[string]string `json:"alt_models,omitempty"` // further satisfying assignments (every input differs from the first model's), replayed if the first does not reproduce
 	combLabels []string
 	combOff    int
 	Model      map[string]string `json:"model,omitempty"`
@@ -713,6 +714,9 @@ func (r *Runner) solveOne(q *pendingQuery, traceNames []string) {
 		if ok {
 			q.res.Model = model
 			q.res.Traces = extractTraces(sr, len(q.getvals), traceNames)
+			if q.kind == "assert" || q.kind == "panic" {
+				q.res.AltModels = altModels(q, model)
+			}
 			if q.res.combLabels != nil {
 				for i, l := range q.res.combLabels {
 					k := q.res.combOff + i
@@ -1026,4 +1030,48 @@ func nativeReplay(pkg string, consts map[string]string, cases []ReplayCase, hang
 		from = lastEnded + 1
 	}
 	return outs, nil
+}
+
+// altModels: up to two further models of a satisfiable assertion query in which every real input takes a value
+// different from all models found so far. A model can fail to reproduce natively although the defect is real (for
+// instance when it sits in a boundary-contact configuration where a contract and the real leaf differ): another
+// model then often does. Only representable models are kept.
+func altModels(q *pendingQuery, first map[string]string) []map[string]string {
+	var out []map[string]string
+	seen := []map[string]string{first}
+	for try := 0; try < 2; try++ {
+		var sb strings.Builder
+		for _, m := range seen {
+			for _, n := range q.getvals {
+				v, ok := m[n]
+				if !ok || strings.Contains(n, ".aux") || v == "true" || v == "false" {
+					continue
+				}
+				r, okR := new(big.Rat).SetString(v)
+				if !okR {
+					continue
+				}
+				fmt.Fprintf(&sb, "(assert (distinct %s %s))\n", smtName(n), ratStr(r, true))
+			}
+		}
+		if sb.Len() == 0 {
+			return out
+		}
+		script := strings.Replace(q.script, "(check-sat)", sb.String()+"(check-sat)", 1)
+		to := q.timeout
+		if to > 20 {
+			to = 20
+		}
+		sr := runSolver(script, to, solverBin)
+		if sr.status != "sat" {
+			return out
+		}
+		m, ok := extractModel(sr, q.getvals)
+		if !ok {
+			return out
+		}
+		out = append(out, m)
+		seen = append(seen, m)
+	}
+	return out
 }
